@@ -1244,6 +1244,8 @@ def trusted_note(key):
     """the entry a harness module adds to its TRUSTED list"""
     if key in SWEEP_KEYS:
         return py2lean_sweep.trusted_note(key)
+    if key in IMAGE_KEYS:                        # the image engine (py2lean_image.py)
+        return py2lean_image.trusted_note(key)
     if key in STMT_KEYS:
         return ("harness/translator/py2lean.py + py2lean_stmt.py (statement-level ast translation of the anchored code of %s into "
                 "Generated/%s, proved equal to the hand-written model on every run; its TARGETS table -- binders, the attribute -> "
@@ -1273,6 +1275,8 @@ def manifest_note(key):
     fs = []
     if key in SWEEP_KEYS:
         return py2lean_sweep.manifest_note(key)
+    if key in IMAGE_KEYS:                        # the image engine (py2lean_image.py)
+        return py2lean_image.manifest_note(key)
     if key in STMT_KEYS:
         for cfg in py2lean_stmt.TARGETS:
             if cfg["file"] == key:
@@ -1307,6 +1311,8 @@ def prop_file(key):
 
 def prop_files(key):
     """the generated file of `key` preceded by the hand-written library / bridging lemma files it imports (for PROP_FILES)"""
+    if key in IMAGE_KEYS:                        # the image engine (py2lean_image.py)
+        return list(py2lean_image.BRIDGES.get(key, [])) + [prop_file(key)]
     return list(py2lean_stmt.BRIDGES.get(key, py2lean_sweep.BRIDGES.get(key, []))) + [prop_file(key)]
 
 
@@ -1629,7 +1635,8 @@ def all_target_functions(path):
     """qualified names of the functions of the Python file `path` that have a target in either engine"""
     return ([c["func"] for c in TARGETS if FILES[c["file"]][0] == path]
             + [c["func"] for c in py2lean_stmt.TARGETS if c.get("pyfile", FILES[c["file"]][0]) == path]
-            + [c["func"] for c in py2lean_sweep.TARGETS if FILES[c["file"]][0] == path])
+            + [c["func"] for c in py2lean_sweep.TARGETS if FILES[c["file"]][0] == path]
+            + [c["func"] for c in py2lean_image.TARGETS + [py2lean_image.PIN_TARGET] if FILES[c["file"]][0] == path])
 
 
 def not_translated_comment(items):
@@ -1910,6 +1917,8 @@ def render_file(key, root):
         return py2lean_stmt.render_file(key, root)
     if key in SWEEP_KEYS:                        # the sweep engine (py2lean_sweep.py)
         return py2lean_sweep.render_file(key, root)
+    if key in IMAGE_KEYS:                        # the image engine (py2lean_image.py)
+        return py2lean_image.render_file(key, root)
     py, out, ns, model, prop = FILES[key]
     o, info = [header(key)], {"source": py, "output": "/".join([GEN.replace(os.sep, "/"), out]), "functions": {}}
     src, fns, file_err, tree = "", {}, None, None
@@ -2155,6 +2164,13 @@ from . import py2lean_sweep  # noqa: E402
 for _k, _v in py2lean_sweep.FILES.items():
     FILES[_k] = _v[:5]
     SWEEP_KEYS.add(_k)
+
+# the image engine (_transform, PersistenceImager.transform / fit_transform) registers its file the same way
+IMAGE_KEYS = set()
+from . import py2lean_image  # noqa: E402
+for _k, _v in py2lean_image.FILES.items():
+    FILES[_k] = _v[:5]
+    IMAGE_KEYS.add(_k)
 
 
 if __name__ == "__main__":
